@@ -361,16 +361,23 @@ func (r *regWorld) registerStatic() string {
 	// takes a relation target exactly for relation types
 	if wr, ok := staticWithRelation[sr.tp]; ok && !r.w.IsLocked() {
 		p := core.Call(func() { wr(r.w) })
-		if r.w.IsLocked() {
-			return fmt.Sprintf("generic filter WithRelation(%v) left the world locked (panic: %v)", sr.tp, p)
-		}
-		if sr.rel && p != nil {
-			return fmt.Sprintf("generic filter WithRelation(%v) is refused although the type is a relation: %v", sr.tp, p)
-		}
-		if !sr.rel && p == nil {
-			return fmt.Sprintf("generic filter WithRelation(%v) is accepted although the type does not count as a relation (ecs.Relation is not embedded as its first field)", sr.tp)
+		if msg := relProbeVerdict(sr.tp, sr.rel, p, r.w.IsLocked()); msg != "" {
+			return msg
 		}
 		r.label("relation-ness asked through a generic filter")
+	}
+	return ""
+}
+
+func relProbeVerdict(tp reflect.Type, rel bool, p any, locked bool) string {
+	if locked {
+		return fmt.Sprintf("generic filter WithRelation(%v) left the world locked (panic: %v)", tp, p)
+	}
+	if rel && p != nil {
+		return fmt.Sprintf("generic filter WithRelation(%v) is refused although the type is a relation: %v", tp, p)
+	}
+	if !rel && p == nil {
+		return fmt.Sprintf("generic filter WithRelation(%v) is accepted although the type does not count as a relation (ecs.Relation is not embedded as its first field)", tp)
 	}
 	return ""
 }
@@ -773,6 +780,22 @@ func runRegCase(c *regReplay) (msg string, labels map[string]bool, nontrivial bo
 func TestC16(t *testing.T) {
 	withStats(t, "C16", func(st *core.Stats) {
 		st.Rule = "sequences interleaving registrations of generated type shapes (through TypeID) and of static types through the generic ComponentID[T] (interface types, pointers, funcs, maps, slices, strings, channels, scalars, zero-sized, the bare ecs.Relation, structs with Relation first / later) (ecs.Relation embedded first / embedded later / absent; structs, arrays, zero-sized, non-struct) with entity creation, Add/Assign/Remove/Set of components drawn with a bias to the newest and highest IDs, re-registration of known types, registration in a locked world, filling the registry to the limit and one registration more, relation tables that are retired, outlive further registrations and are reused, and the same for the resource registry, and World.Reset (registrations survive it); after every op: ResourceIDs/ResourceType dense, stable and consistent and known component and resource types looked up again keep their IDs, ComponentIDs/ComponentInfo dense, stable and consistent, IsRelation <=> relation embedded first, and every tracked entity is read through EVERY registered ID (Has/Get/Mask, value bytes, Query(All(id)) finds it, Query.Get == World.Get); rejected registrations leave the registry unchanged and the next successful one gets the expected ID; non-trivial = a component whose type was registered after an entity's table existed, in a later 16-ID layout chunk, was added to that entity and read back"
+		// enumerated, once per run (also when replaying): relation-ness of every static shape as seen by a generic filter, in
+		// a scratch world (the generated histories ask again whenever they register one of these types)
+		for tp, wr := range staticWithRelation {
+			rel := false
+			for _, sr := range staticRegs {
+				if sr.tp == tp {
+					rel = sr.rel
+				}
+			}
+			w := ecs.NewWorld()
+			p := core.Call(func() { wr(&w) })
+			if msg := relProbeVerdict(tp, rel, p, w.IsLocked()); msg != "" {
+				probeFail(t, "C16", "generic-relation-ness", msg)
+			}
+			st.Count("relation-ness probes through a generic filter", 1)
+		}
 		if path, ok := replaying(); ok {
 			var r regReplay
 			if err := core.ReadReplay(path, &r); err != nil {
